@@ -239,7 +239,46 @@ func rdfCompare(ref, got []rdfItem, prefixOK bool) string {
 var rdfBadLines = []string{"<a:a> <b:b> .", `<a:a> "lit" <c:c> .`, `_:b <p:p> "x"@ .`, "<rel> <p:p> <o:o> .", `<a:a> <b:b> "unterminated .`,
 	"<a:a> <b:b> <c:c>", `<a:a> <b:b> "\x" .`, `<a:a> <b:b> "\u12" .`, "_:. <b:b> <c:c> .", "<a:a> <b:b> <c:c> <d:d> <e:e> ."}
 
+// rdfRespell rebuilds every term of st from its parts with the package's
+// constructors (nil if a term cannot be rebuilt).
+func rdfRespell(st *rdf.Statement) *rdf.Statement {
+	re := func(t rdf.Term) (rdf.Term, bool) {
+		if t.Value == "" {
+			return rdf.Term{}, true
+		}
+		text, qual, kind, err := t.Parts()
+		if err != nil {
+			return rdf.Term{}, false
+		}
+		var n rdf.Term
+		switch kind {
+		case rdf.Blank:
+			n, err = rdf.NewBlankTerm(text)
+		case rdf.IRI:
+			n, err = rdf.NewIRITerm(text)
+		case rdf.Literal:
+			n, err = rdf.NewLiteralTerm(text, qual)
+		default:
+			return rdf.Term{}, false
+		}
+		return n, err == nil
+	}
+	var out rdf.Statement
+	var ok [4]bool
+	out.Subject, ok[0] = re(st.Subject)
+	out.Predicate, ok[1] = re(st.Predicate)
+	out.Object, ok[2] = re(st.Object)
+	out.Label, ok[3] = re(st.Label)
+	if !(ok[0] && ok[1] && ok[2] && ok[3]) {
+		return nil
+	}
+	return &out
+}
+
 var rdfOddLines = []string{
+	"<ex:s" + rdfU + "0041> <ex:p" + rdfU + "0041> <ex:o" + rdfU + "0041> <ex:g" + rdfU + "0041> .",
+	"<ex:a#b" + rdfU + "007Fc> <ex:p> \"x\"^^<ex:t#" + rdfU + "007f> .",
+	"_:b <ex:p> \"tab" + rdfU + "0009sep\" .",
 	"<http://example.org/" + rdfU + "0001> <http://example.org/p> _:b .",
 	"<http://example.org/a" + rdfU + "0020b> <http://example.org/p> _:b .",
 	"<http://example.org/a" + rdfU + "003e" + rdfU + "0020" + rdfU + "003cs:b> <http://example.org/p> _:b .",
@@ -345,6 +384,14 @@ func runNQuads(c *Ctx) *Violation {
 				again, err := f(nil, out)
 				if err != nil || len(again) != len(out) || (len(out) == 1 && again[0].String() != out[0].String()) {
 					return viol("rdf-c14n/"+name+"/not-idempotent", "%s of its own output for %q differs: %v then %v (%v)", name, line, out, again, err)
+				}
+				// the same statement with every term spelled the way the
+				// constructors spell it: one dataset, one canonical form
+				if plain := rdfRespell(st); plain != nil && len(out) == 1 {
+					pout, err := f(nil, []*rdf.Statement{plain})
+					if err == nil && len(pout) == 1 && pout[0].String() != out[0].String() {
+						return viol("rdf-c14n/"+name+"/spelling-changes-output", "%s of %q is %q; of the same statement spelled %q it is %q", name, line, out[0].String(), plain.String(), pout[0].String())
+					}
 				}
 			}
 			return nil
